@@ -5,12 +5,16 @@
 import UnifexModel.Driver.Entry
 import UnifexModel.Driver.Entries.StopSource
 import UnifexModel.Driver.Entries.Calc
+import UnifexModel.Driver.Entries.Timer
 
 namespace Unifex.Driver
 
 def table : List ModelEntries :=
   [ Entries.stopsource
   , Entries.calcEntries
+  , Entries.clock
+  , Entries.timerqueue
+  , Entries.timerop
   ]
 
 def lookup (m c : String) : Option Entry :=
